@@ -24,10 +24,11 @@ func init() {
 	}
 	Registry["C07"] = Entry{
 		Run: runC07,
-		Explanation: "Decides two structural necessary conditions of 'accepted programs are type-safe; ill-typed bindings are rejected' (thin claim): " +
+		Explanation: "Decides three structural necessary conditions of 'accepted programs are type-safe; ill-typed bindings are rejected' (thin claim): " +
 			"T1 assignability and type equality recurse on the right operands (operand symmetry over every IsAssignableFrom / CheckEqual implementation), " +
-			"T2 in every implementation of Type.IsValidExpression the reference arm returns nil only after resolveType succeeded and IsAssignableFrom(receiver, resolved type) succeeded (sibling agreement over all implementations), and the split / disabled arms delegate. " +
-			"NOT decided: soundness of the whole relation, projection, map-call dimensions, error locations: this decides two mechanisms, not the property's behaviour.",
+			"T2 in every implementation of Type.IsValidExpression the reference arm returns nil only after resolveType succeeded and IsAssignableFrom(receiver, resolved type) succeeded (sibling agreement over all implementations), and the split / disabled arms delegate, " +
+			"T3 wherever a type id is wrapped in a map (MapDim = ArrayDim + 1, found by shape) the test MapDim == 0 of the same value is crossed after its last definition (no silent map<map> collapse). " +
+			"NOT decided: soundness of the whole relation, projection, array dimensions, error locations: this decides two mechanisms, not the property's behaviour.",
 		Assumptions: commonAssumptions,
 	}
 }
@@ -380,6 +381,7 @@ func flagSetOnPath(s, pred *ssa.BasicBlock) bool {
 func runC07(c *an.Ctx) {
 	ruleT1(c, "T1")
 	ruleT2(c)
+	ruleT3(c)
 }
 
 func ruleT2(c *an.Ctx) {
